@@ -10,7 +10,7 @@ import (
 // substitutes for them, bit-precisely in FloatingPoint arithmetic, for every until in
 // [2^40, 2^62) ns and every ts with |until - ts| <= 1024 periods.
 //
-//zx:harness prop=C07+C01+C05 id=C07.R tier=quick fpconv=1 timeout=600000 shard=res:2,dir:2
+//zx:harness prop=C01+C03+C04+C05+C06+C07+C14 id=C07.R tier=quick fpconv=1 timeout=600000 shard=res:2,dir:2
 func zxC07RoundSummary() {
 	res := zxRes()
 	until := vrtTime("until")
